@@ -38,7 +38,7 @@ from specs import bdsampling as S
 from vt import nf
 from vt.cond import Infeasible, Undecided
 from vt.runner import Ob, Refuted
-from vt.scenario import el, prove_scenario, sexp, slog
+from vt.scenario import _raised_in_repo, el, prove_scenario, sexp, slog
 from vt.stubs import symbolic_factories
 from vt.symtorch import ST, _obj_f
 
@@ -1226,6 +1226,67 @@ def ob_refine_numeric(m, trials, seed, multi=False):
 # ======================================================================================
 # vacuity twins
 
+# range of the arithmetic: fast rates over a long origin (A x duration in the hundreds) are ordinary epidemiological inputs
+_RANGE_TREE = ([0.0, 0.0, 1.0, 2.5, 3.5], [1.7, 2.0, 4.0, 5.0])
+_RANGE_CASES = {
+    # label: lambda, mu, psi, rho, origin   (A = sqrt((lambda-mu-psi)^2 + 4 lambda psi))
+    "A*T=70": (6.0, 5.0, 0.5, 0.1, 16.0),
+    "A*T=280": (60.0, 50.0, 2.0, 0.1, 12.0),
+    "A*T=373": (60.0, 50.0, 2.0, 0.1, 16.0),
+    "A*T=700": (60.0, 50.0, 2.0, 0.1, 30.0),
+    "A*T=1400,no rho": (73.0, 70.0, 20.0, 0.0, 20.0),
+}
+
+
+def _range_case(label, which):
+    import mpmath
+    import torchtree.evolution.bdsk as bd
+    import torchtree.evolution.birth_death as bdc
+    lam, mu, psi, rho, T = _RANGE_CASES[label]
+    tips, internal = _RANGE_TREE
+    mpmath.mp.dps = 60
+    M = mpmath.mpf
+    n_ext = sum(1 for t in tips if t == 0.0) if rho > 0 else 0
+    serial = [t for t in tips if not (t == 0.0 and rho > 0)]
+    want = float(S.log_density(M(T), [M(x) for x in internal], [M(x) for x in serial], n_ext, M(lam), M(mu), M(psi), M(rho), r=M(1), survival=True))
+    t64 = lambda v: torch.tensor(v, dtype=torch.float64)
+    h = t64(tips + internal)
+    try:
+        if which == "constant":
+            got = bdc.BirthDeath(t64([lam]), t64([mu]), t64([psi]), t64([rho]), t64([T]), survival=True).log_prob(h)
+        else:
+            m = int(which)
+            got = bd.PiecewiseConstantBirthDeath(t64([lam] * m), t64([mu] * m), t64([psi] * m), rho=t64([rho]), origin=t64([T]), survival=True).log_prob(h)
+        got = float(got.reshape(-1)[0])
+    except Exception as e:
+        if not _raised_in_repo(e):
+            raise
+        got = "%s: %s" % (type(e).__name__, str(e)[:120])
+    return got, want
+
+
+def replay_range(args):
+    got, want = _range_case(args["case"], args["which"])
+    if isinstance(got, str) or not (abs(got - want) <= 1e-7 * max(1.0, abs(want))):
+        return False, "%s, %s: real log density %s, closed form evaluated with 60 digits %.10f" % (args["case"], args["which"], got, want)
+    return True, "agree: %.10f" % want
+
+
+def ob_range(label, which):
+    def fn():
+        got, want = _range_case(label, which)
+        if isinstance(got, str) or not (abs(got - want) <= 1e-7 * max(1.0, abs(want))):
+            lam, mu, psi, rho, T = _RANGE_CASES[label]
+            what = "constant-rate model" if which == "constant" else "skyline with %s epoch(s) of identical rates" % which
+            raise Refuted("%s, lambda=%s mu=%s psi=%s rho=%s origin=%s (%s) on a 5-tip tree: log density %s, closed form evaluated with 60 digits %.10f"
+                          % (what, lam, mu, psi, rho, T, label, got if isinstance(got, str) else "%.10f" % got, want),
+                          witness={"case": label, "which": which, "got": got, "want": want},
+                          replay={"kind": "custom", "contract": "C09", "func": "replay_range", "args": {"case": label, "which": which}}, confirmed=True)
+        return {"backend": "numeric (closed form in 60-digit arithmetic vs real code)", "cases": 1,
+                "statement": "%s (%s): |log density - closed form| <= 1e-7 relative" % (label, which)}
+    return fn
+
+
 def _must_refute(make_scn, seed, what):
     def fn():
         try:
@@ -1527,6 +1588,10 @@ def obligations(tier, seed):
         sc("C09.single_epoch.model_call[T=%d,tips=%s]" % (T, tips), "scn_model_call", (T, tips, "sym", True),
            "BDSKModel._call: (R, delta, s) parameterisation of the same density")
 
+    for label in _RANGE_CASES:
+        for which in ("1", "3", "constant"):
+            obs.append(Ob("C09.range[%s,%s]" % (label, "constant model" if which == "constant" else "epochs=" + which), "B", ob_range(label, which),
+                          clause="single epoch ≡ constant-rate density ≡ split epochs, for fast rates over a long origin (range of the arithmetic)", funcs=FUNCS))
     obs.append(Ob("C09.single_epoch.model_call.numeric", "B", ob_model_call_numeric(10 if thorough else 4, seed),
                   clause="BDSKModel._call: (R, delta, s) parameterisation of the same density", funcs=FUNCS))
 
